@@ -76,6 +76,56 @@ PLAIN = "<math><mrow><mi arg='a'>x</mi><mo>+</mo><mn arg='b'>1</mn></mrow></math
 KIND = {"terminal": 0, "property": 1, "argref": 2, "name": 3, "number": 4}
 
 
+def arg_tree(rng, depth, counter, top=False):
+    """(MathML, Coq term) of an element for the find_arg tie: numbers are labels, arg in {none, x, y}, rows may carry an
+    intent of their own (a plain name: valid by itself)"""
+    arg = None if top else rng.choice([None, None, "x", "y"])
+    if not top and (depth <= 0 or rng.random() < 0.5):
+        counter[0] += 1
+        lab = 10 + counter[0]
+        return ("<mn%s>%d</mn>" % ((" arg='%s'" % arg) if arg else "", lab),
+                "(AT %s false [] %d)" % ("(Some %d)" % (1 if arg == "x" else 2) if arg else "None", lab))
+    intent = "f($x)" if top else rng.choice([None, None, "g", ":structure", "h"])
+    kids = [arg_tree(rng, depth - 1, counter) for _ in range(rng.randint(2, 3))]     # a row with one child is dissolved by clean-up
+    counter[0] += 1
+    lab = 10 + counter[0]
+    xml = "<mrow%s%s>%s</mrow>" % ((" arg='%s'" % arg) if arg else "", (" intent='%s'" % xml_attr(intent)) if intent else "", "<mo>+</mo>".join(k[0] for k in kids))
+    return xml, "(AT %s %s [%s] %d)" % ("(Some %d)" % (1 if arg == "x" else 2) if arg else "None", "true" if intent else "false", "; ".join(k[1] for k in kids), lab)
+
+
+def arg_observations(rng, n):
+    """find_arg through the API: under IntentErrorRecovery=Error, is `f($x)` on the tree accepted, and which element is spoken"""
+    trees = [arg_tree(rng, 3, [0], top=True) for _ in range(n)]
+    # by hand: visible, nested in a plain row, hidden by an intent, hidden by another arg, two candidates, self reference
+    trees += [("<mrow intent='f($x)'><mn arg='x'>11</mn><mo>+</mo><mn>12</mn></mrow>", "(AT None true [AT (Some 1) false [] 11; AT None false [] 12] 13)"),
+              ("<mrow intent='f($x)'><mrow><mn>11</mn><mo>+</mo><mn arg='x'>12</mn></mrow><mo>+</mo><mn>13</mn></mrow>",
+               "(AT None true [AT None false [AT None false [] 11; AT (Some 1) false [] 12] 14; AT None false [] 13] 15)"),
+              ("<mrow intent='f($x)'><mrow intent='g($x)'><mn arg='x'>11</mn><mo>+</mo><mn>12</mn></mrow><mo>=</mo><mn>13</mn></mrow>",
+               "(AT None true [AT None true [AT (Some 1) false [] 11; AT None false [] 12] 14; AT None false [] 13] 15)"),
+              ("<mrow intent='f($x)'><mrow arg='y'><mn arg='x'>11</mn><mo>+</mo><mn>12</mn></mrow><mo>=</mo><mn>13</mn></mrow>",
+               "(AT None true [AT (Some 2) false [AT (Some 1) false [] 11; AT None false [] 12] 14; AT None false [] 13] 15)"),
+              ("<mrow intent='f($x)'><mrow intent=':structure'><mn arg='x'>11</mn><mo>+</mo><mn>12</mn></mrow><mo>=</mo><mn arg='x'>13</mn></mrow>",
+               "(AT None true [AT None true [AT (Some 1) false [] 11; AT None false [] 12] 14; AT (Some 1) false [] 13] 15)"),
+              ("<mrow intent='f($x)' arg='x'><mn>11</mn><mo>+</mo><mn>12</mn></mrow>", "(AT (Some 1) true [AT None false [] 11; AT None false [] 12] 13)")]
+    ops = [["set_preference", "IntentErrorRecovery", "Error"]]
+    for xml, _ in trees:
+        ops += [["set_mathml", "<math>%s</math>" % xml], ["get_spoken_text"]]
+    r = C.one_session(ops)["res"][1:]
+    obs = []
+    for i, (xml, term) in enumerate(trees):
+        sm, sp = r[2 * i], r[2 * i + 1]
+        if "ok" not in sm or "panic" in sp:
+            continue
+        acc = not rejected_by_intent(sp)
+        lab = None
+        if acc and "ok" in sp:
+            said = [int(x) for x in re.findall(r"\b(\d\d)\b", sp["ok"])]
+            if len(said) == 1:
+                lab = said[0]
+        obs.append((xml, term, acc, lab, sp))
+    return obs
+
+
 def generate(res):
     src = C.read(os.path.join(C.REPO, "src", "infer_intent.rs"))
     t = C.translate(res, "c19", "token patterns of infer_intent.rs", lambda: G.parse_source(src))
@@ -119,6 +169,12 @@ def generate(res):
     body = HEADER
     body += "Definition lex_obs : list (list N * option (list (N * list N))) := " + clist(lex_items) + ".\n"
     body += "Definition accept_obs : list (list N * bool) := " + clist(acc_items) + ".\n"
+    aobs = arg_observations(rng, 60 if tier == "quick" else 600)
+    body += "From MC Require Import Model.FindArg.\nDefinition arg_obs : list (atree * bool * option N) := " + clist(
+        "(%s, %s, %s)" % (t, "true" if a_ else "false", "Some %d" % l if l is not None else "None") for _, t, a_, l, _ in aobs) + ".\n"
+    if res is not None:
+        res.extra["find_arg_cases"] = {"trees": len(aobs), "accepted": sum(1 for o in aobs if o[2]), "element_identified": sum(1 for o in aobs if o[3] is not None)}
+        res.extra["_aobs"] = aobs
     C.write_if_changed(os.path.join(C.GEN, "C19Obs.v"), body)
     if res is not None:
         res.extra["gen_sources"] = [{"file": "src/infer_intent.rs", "events": t["events"], "terminals": t["terminals"]}] if t else []
@@ -229,6 +285,87 @@ def api_oracle(res, values, acc):
     return nv
 
 
+def py_resolve(term):
+    """Model/FindArg.resolve in python, for the search only (the term is the Coq term of the tree)"""
+    toks = re.findall(r"\(|\)|\[|\]|;|Some|None|true|false|AT|\d+", term)
+    pos = [0]
+
+    def tree():
+        if toks[pos[0]] == "(":
+            pos[0] += 1
+            t = tree()
+            pos[0] += 1
+            return t
+        pos[0] += 1                      # AT
+        if toks[pos[0]] == "None":
+            a = None
+            pos[0] += 1
+        else:
+            pos[0] += 2                  # ( Some
+            a = int(toks[pos[0]])
+            pos[0] += 2
+        i = toks[pos[0]] == "true"
+        pos[0] += 2                      # bool [
+        ks = []
+        while toks[pos[0]] != "]":
+            if toks[pos[0]] == ";":
+                pos[0] += 1
+            ks.append(tree())
+        pos[0] += 1
+        lab = int(toks[pos[0]])
+        pos[0] += 1
+        return (a, i, ks, lab)
+
+    def find(name, t, skip, nci):
+        a, i, ks, l = t
+        if not skip and a == name:
+            return l
+        if not skip and nci and a is not None:
+            return None
+        if nci and i:
+            return None
+        for c in ks:
+            r = find(name, c, False, True)
+            if r is not None:
+                return r
+        return None
+    return find(1, tree(), True, False)
+
+
+def arg_oracle(res, aobs):
+    """references that can only be satisfied inside an element with its own intent / another arg are dangling: Error mode
+    reports an error, IgnoreIntent speaks the expression as without the outer intent; visible references are honoured"""
+    nv = 0
+    hidden = [(xml, term) for xml, term, acc, lab, sp in aobs if py_resolve(term) is None]
+    for xml, term, acc, lab, sp in aobs:
+        r = py_resolve(term)
+        res.add_case(("find_arg", xml), nontrivial=(r is None))
+        if r is None and acc:
+            res.violation("IntentErrorRecovery=Error: the reference $x of %s can only be satisfied inside an element with its own intent or another arg "
+                          "(it nests illegally) but the intent is accepted: %r" % (xml[:200], sp.get("ok", "")[:80]),
+                          {"kind": "intent", "value": "f($x)", "mathml": "<math>%s</math>" % xml, "mode": "ErrorExpected", "observed": sp})
+            nv += 1
+        elif r is not None and not acc:
+            res.violation("IntentErrorRecovery=Error: the reference $x of %s is visible (element %d) but the intent is rejected" % (xml[:200], r),
+                          {"kind": "intent", "value": "f($x)", "mathml": "<math>%s</math>" % xml, "mode": "honoured", "observed": sp})
+            nv += 1
+        if nv >= 3:
+            return nv
+    ops = [["set_preference", "IntentErrorRecovery", "IgnoreIntent"]]
+    for xml, _ in hidden[:40]:
+        ops += [["set_mathml", "<math>%s</math>" % xml], ["get_spoken_text"], ["set_mathml", "<math>%s</math>" % xml.replace(" intent='f($x)'", "", 1)], ["get_spoken_text"]]
+    r = C.one_session(ops)["res"][1:]
+    for i, (xml, _) in enumerate(hidden[:40]):
+        a, b = r[4 * i + 1], r[4 * i + 3]
+        if "ok" in b and a != b:
+            res.violation("IntentErrorRecovery=IgnoreIntent: an intent whose reference nests illegally is not ignored: %r instead of %r" % (str(a)[:100], str(b)[:100]),
+                          {"kind": "intent", "value": "f($x)", "mathml": "<math>%s</math>" % xml, "mode": "IgnoreIntent", "observed": a, "expected": b})
+            nv += 1
+            if nv >= 3:
+                break
+    return nv
+
+
 def run(res):
     res.rule = ("intent values: 40+ fixed edge cases, seeded grammatical values (depth 0-3) over arguments a/b, 1-3 character mutations of them "
                 "(drop, duplicate, insert punctuation / Unicode / blanks, swap), arbitrary strings; lexer hook and Error-mode acceptance vs model; "
@@ -236,11 +373,14 @@ def run(res):
                 "non-trivial = values rejected under Error mode")
     values, acc = generate(res)
 
+    aobs = res.extra.pop("_aobs", [])
+
     def on_broken(log):
-        return api_oracle(res, values, acc) > 0
+        return api_oracle(res, values, acc) + arg_oracle(res, aobs) > 0
     proved = C.check_proofs(res, "C19", ["Props/C19.vo", "Tie/C19Tie.vo"], "Props/C19.v", search=on_broken)
     if proved:
         api_oracle(res, values, acc)
+        arg_oracle(res, aobs)
     res.trusted += ["speech rules (match_pattern) and find_arg are oracles of the parser model; in the acceptance tie arguments a, b are present and the self-match succeeds",
                     "regex crate: leftmost-longest behaviour of the four token patterns (tied by the lexer hook)"]
     res.assumptions += ["'speech mentions the named concept' depends on the rule files: checked on three examples only"]
@@ -254,6 +394,10 @@ def replay(path):
         return 2
     if rep.get("kind") == "intent":
         mode = rep.get("mode", "IgnoreIntent")
+        if mode == "ErrorExpected":
+            r = C.one_session([["set_preference", "IntentErrorRecovery", "Error"], ["set_mathml", rep["mathml"]], ["get_spoken_text"]])["res"]
+            print(json.dumps(r[1:], ensure_ascii=False)[:800])
+            return 1 if "ok" in r[2] or "panic" in r[2] else 0
         pref = "Error" if mode == "Error" else "IgnoreIntent"
         r = C.one_session([["set_preference", "IntentErrorRecovery", pref], ["set_mathml", rep["mathml"]], ["get_spoken_text"], ["set_mathml", PLAIN], ["get_spoken_text"]])["res"]
         print(json.dumps(r[1:], ensure_ascii=False)[:1200])
